@@ -3,8 +3,8 @@
    when its guard is false. Panics inside dependencies on inputs the model does not send them,
    allocation failure and aborts are runtime behaviour a Gallina model cannot exhibit (sampled by
    catch_unwind + timeout in the correspondence run). *)
-Require Import Enr.Bytes Enr.Consts Enr.Rlp Enr.SortedMap Enr.Keccak Enr.Record Enr.Text.
-Require Import EnrProofs.Thm_Misc.
+Require Import Enr.Bytes Enr.Consts Enr.Rlp Enr.SortedMap Enr.Keccak Enr.Record Enr.Update Enr.Text Enr.Spec.
+Require Import EnrProofs.Thm_Misc EnrProofs.Thm_More EnrProofs.Thm_Valid.
 Open Scope N_scope.
 
 Theorem decode_no_panic : forall (c : crypto) kt b, decode c kt b <> Panic.
@@ -36,3 +36,33 @@ Theorem get_no_panic : forall r k x, get r k = Some x ->
   (forall v, sm_get k (content r) = Some v -> exists l n p, hdr_decode v = Ok (l, n, p)) -> x <> Panic.
 Proof. exact Thm_Misc.get_no_panic. Qed.
 Print Assumptions get_no_panic.
+
+(* every update call with arbitrary arguments, on ANY record, with ANY signer: never a panic *)
+Theorem step_no_panic : forall (c : crypto) kt r o k sg, fst (step c kt r o k sg) <> Panic.
+Proof. exact Thm_More.step_no_panic. Qed.
+Print Assumptions step_no_panic.
+
+Theorem build_no_panic : forall (c : crypto) kt sq calls k sg, build c kt sq calls k sg <> Panic.
+Proof. exact Thm_More.build_no_panic. Qed.
+Print Assumptions build_no_panic.
+
+(* accessors on any record the library handed out (Valid, by C05): get's expect, public_key's expect and
+   verify never fire *)
+Theorem get_total : forall r k x, Forall pair_ok (content r) -> get r k = Some x -> exists v, x = Ok v.
+Proof. exact Thm_More.get_total. Qed.
+Print Assumptions get_total.
+
+Theorem valid_accessors_total : forall (c : crypto) kt r, Valid c kt r ->
+  (exists pk, public_key c kt r = Ok pk) /\ verify c kt r = Ok true /\
+  (forall k x, get r k = Some x -> exists v, x = Ok v).
+Proof. exact Thm_More.valid_accessors_total. Qed.
+Print Assumptions valid_accessors_total.
+
+(* hence along every history: whatever the calls, the record held afterwards has total accessors *)
+Theorem history_accessors_total : forall (c : crypto) kt h r,
+  Valid c kt r -> Forall (call_ok c kt) h ->
+  (exists pk, public_key c kt (run c kt r h) = Ok pk) /\ verify c kt (run c kt r h) = Ok true.
+Proof.
+  intros c kt h r Hv Hall. destruct (Thm_More.valid_accessors_total c kt _ (Thm_Valid.history_valid c kt h r Hv Hall)) as (H1 & H2 & _). auto.
+Qed.
+Print Assumptions history_accessors_total.
